@@ -1819,7 +1819,12 @@ impl<T: PPGEvaluatorStrategy> PPGEvaluator<T> {
                                     "No history for {}, but found {} to use instead",
                                     upstream_id, x
                                 );
-                                history.get(&x).map(Cow::from)
+                                // what *this* downstream consumed from the job when it
+                                // still had its old name - not the job's last output,
+                                // which may have changed since the downstream last ran.
+                                history
+                                    .get(&format!("{}!!!{}", x, downstream_id))
+                                    .map(Cow::from)
                             }
                             None => None,
                         }
